@@ -116,6 +116,11 @@ class Ctx:
             print(f"INCONCLUSIVE: property={self.pid} {w}")
         self.write_evidence()
         wall = time.time() - self.t0
+        if self.stats.get("cross_agree") or self.stats.get("cross_disagree") or self.stats.get("cross_inconclusive"):
+            print(f"[{self.pid} {self.tier}] second solver (z3 4.8.12 binary): agree={self.stats['cross_agree']} "
+                  f"disagree={self.stats['cross_disagree']} inconclusive={self.stats['cross_inconclusive']}")
+        if self.stats.get("cross_disagree"):
+            raise HarnessError(f"{self.stats['cross_disagree']} sampled queries are decided differently by z3 4.8.12")
         print(
             f"[{self.pid} {self.tier}] obligations={self.stats['obligations']} "
             f"unsat={self.stats['unsat']} identity={self.stats['identity']} sat={self.stats['sat']} "
@@ -141,7 +146,7 @@ class Ctx:
             "inconclusive": self.inconclusive[:40],
             "functions_encoded": self.encoded,
             "bounds": self.bounds,
-            "solver": self.extra.pop("solver", {}),
+            "solver": dict(self.extra.pop("solver", {}), **({"second_solver": {"binary": "/usr/bin/z3 (4.8.12) on the SMT-LIB2 dump of every 16th query by hash", "agree": int(self.stats["cross_agree"]), "disagree": int(self.stats["cross_disagree"]), "inconclusive": int(self.stats["cross_inconclusive"])}} if os.environ.get("VERIF_CROSSCHECK") == "1" else {})),
             "solver_wall_s": round(self.solver_wall, 3),
             "technique": self.technique,
             "counters": {k: int(v) for k, v in sorted(self.stats.items())},
@@ -173,6 +178,24 @@ class Ctx:
         with open(tmp, "w") as f:
             json.dump(ev, f, indent=1, default=str)
         os.replace(tmp, path)
+
+
+class ContractCtx:
+    """view of a Ctx that files violations under `contract:<signature>`: used when a translation-validation check
+    discharges the procedure contracts it assumed by running another property's obligations on the library text"""
+
+    def __init__(self, ctx, prefix="contract:"):
+        object.__setattr__(self, "_ctx", ctx)
+        object.__setattr__(self, "_prefix", prefix)
+
+    def __getattr__(self, name):
+        return getattr(self._ctx, name)
+
+    def __setattr__(self, name, value):
+        setattr(self._ctx, name, value)
+
+    def violation(self, signature, what, replay):
+        return self._ctx.violation(self._prefix + signature, "[procedure contract assumed by this check] " + what, replay)
 
 
 def repo_source(rel):
